@@ -245,3 +245,57 @@ Fixpoint views_eqb (a b : list (Z * option rv * option (rv * Z))) : bool :=
 (* the handler invocations of the model on the processed events the harness observed = those observed *)
 Definition cycle_ok (T : Z) (l : list pstep) (obs : list (Z * option rv * option (rv * Z))) : bool :=
   views_eqb (exec_views T w0 None l) obs.
+
+(* ---------------- application.apply(): which resourceVersion is reported as "the operator's last write" ---------------- *)
+(* One call of kopf/_core/actions/application.py:apply().  Inputs: is the accumulated patch non-empty
+   (Patch.__bool__: content or fns); the minimal delay of the delayed handlers (None: no delays); whether the
+   sleep was interrupted by stream_pressure; the resourceVersion in the response to each request that gets sent
+   (None: the response carried no object, e.g. 404).  Following the code:
+     rv, remaining := patch_and_check(patch)              -- sends a request iff patch
+     if delay and patch: (no sleep)                        -- `delay` falsy when 0
+     elif delay is not None:
+        unslept := sleep(min(delay, 600)) if delay > 0 else None
+        if patch and not delay: pass
+        elif unslept is not None: (interrupted)
+        else: rv, _ := patch_and_check(touch)              -- the touch-dummy patch: always sent
+     elif not patch: applied := True
+     return applied, rv, remaining                                                              *)
+Record ain := mkA {
+  a_patch : bool; a_delay : option Z; a_interrupted : bool; a_resp1 : option rv; a_resp2 : option rv
+}.
+
+Definition keepalive : Z := 4800.     (* WAITING_KEEPALIVE_INTERVAL = 600 s, in eighths *)
+
+Definition a_sleeps (a : ain) : option Z :=           (* the duration asked from aiotime.sleep, if it is called *)
+  match a_delay a with
+  | Some d => if a_patch a && negb (Z.eqb d 0) then None
+              else if Z.ltb keepalive d then Some keepalive else if Z.ltb 0 d then Some d else None
+  | None => None
+  end.
+
+Definition a_touches (a : ain) : bool :=
+  match a_delay a with
+  | Some d => if a_patch a && negb (Z.eqb d 0) then false
+              else if a_patch a && Z.eqb d 0 then false
+              else match a_sleeps a with Some _ => negb (a_interrupted a) | None => true end
+  | None => false
+  end.
+
+Definition apply_rv (a : ain) : option rv :=
+  let rv1 := if a_patch a then a_resp1 a else None in
+  if a_touches a then a_resp2 a else rv1.
+
+Definition apply_applied (a : ain) : bool :=
+  match a_delay a with None => negb (a_patch a) | Some _ => false end.
+
+(* the responses of the requests this call sends, in order *)
+Definition apply_responses (a : ain) : list (option rv) :=
+  (if a_patch a then [a_resp1 a] else []) ++ (if a_touches a then [a_resp2 a] else []).
+
+Definition apply_obs_eqb (a b : option rv * nat * bool * option Z) : bool :=
+  match a, b with
+  | (r1, n1, p1, s1), (r2, n2, p2, s2) => orv_eqb r1 r2 && Nat.eqb n1 n2 && Bool.eqb p1 p2 && optZ_eqb s1 s2
+  end.
+
+Definition apply_case (a : ain) : option rv * nat * bool * option Z :=
+  (apply_rv a, List.length (apply_responses a), apply_applied a, a_sleeps a).
